@@ -26,6 +26,7 @@ RULE = ('cases = random G-SN networks (1..3 choice blocks of 2..12 branches draw
         'Non-trivial: the winner is not branch 0 for at least one block; distinct = hash of '
         '(network, winners).')
 RULE += ('  Round 3: in every other winner combination export() is called right after the coefficients were re-assigned, the last forward having run with other coefficients (stale sample).')
+RULE += ('  Round 4b: half of the combinations call export() on a SuperNet left in training mode.')
 ASSUMPTIONS = ['hard selection = update_softmax_options(hard=True) + eval mode',
                'bit-exact comparison: 1*y_w + 0*y_i is exact for finite y (finiteness asserted)']
 REQUIRED_MONITORS = ['c03.tree', 'c03.bit_exact', 'c03.fixed_layers']
